@@ -56,7 +56,7 @@ P = {
          'nothing outside the receiver; the copy table regenerated from source shows every array attribute passed fresh and well bound. numpy/torch aliasing semantics are modelled; validated dynamically.',
          'Coq proof over a heap model + source-extracted copy tables + dynamic shares_memory / snapshot validation', '5/C17'),
  'C18': ('Theorems for all N: pauli_diagonalize1 (<=2 rotations) maps every non-identity string to Z on the target qubit and never touches trivial qubits (causality), pauli_diagonalize2 for pairs; the layered circuit diagonalize(Pauli) returns maps the operator to +-Z on the target (causal variant: acts on later qubits only); '
-         'signs by C02; the state case: forward of the circuit of diagonalize(state) sends the state's rows to those of |0..0>, backward re-encodes them. SBRG: the whole loop is modelled over exact Gaussian rationals and proved, for every Hamiltonian, N and tolerance, to return only I/Z strings, a stepwise causal circuit, and on commuting Hamiltonians (exact arithmetic) the input conjugated by the circuit as matrices; the pre-repair loop is refuted in Coq (finding F15, fixed). PARTIAL only for floating-point rounding of coefficients (correspondence: strings, order, circuit exact; coefficients to 1e-9).',
+         'signs by C02; the state case: forward of the circuit of diagonalize(state) sends the rows of the state to those of |0..0>, backward re-encodes them. SBRG: the whole loop is modelled over exact Gaussian rationals and proved, for every Hamiltonian, N and tolerance, to return only I/Z strings, a stepwise causal circuit, and on commuting Hamiltonians (exact arithmetic) the input conjugated by the circuit as matrices; the pre-repair loop is refuted in Coq (finding F15, fixed). PARTIAL only for floating-point rounding of coefficients (correspondence: strings, order, circuit exact; coefficients to 1e-9).',
          'Coq proof (case analysis following the code; loop invariants for SBRG) + exhaustive N<=3 correspondence + SBRG model correspondence and dense spectrum oracle', '5/C18'),
  'C19': ('Theorems: sampled operators are group elements with expectation +1; selection -> element injective; binary_repr enumerates; density_matrix lists every group element exactly once; snapshots are valid, are eigenstates of the whole back-evolved basis with the recorded signs, overlap the measured state (Tr = 2^lp 2^-r > 0), and are pure for a pure basis. '
          'PARTIAL: uniformity of randint assumed.',
